@@ -134,7 +134,12 @@ def load_module(hashed_grammar, file_io, cache_path=None):
 
 
 def _load_from_file_system(hashed_grammar, path, p_time, cache_path=None):
-    cache_path = _get_hashed_path(hashed_grammar, path, cache_path=cache_path)
+    try:
+        # The cache directory is created here if it's missing, which fails if
+        # e.g. its parent is read-only.
+        cache_path = _get_hashed_path(hashed_grammar, path, cache_path=cache_path)
+    except OSError:
+        return None
     try:
         if p_time > os.path.getmtime(cache_path):
             # Cache is outdated
@@ -278,6 +283,9 @@ def _touch(path):
             file.close()
         except (OSError, IOError):  # TODO Maybe log this?
             return False
+    except OSError:
+        # E.g. the lock file belongs to a different user.
+        return False
     return True
 
 
